@@ -2,6 +2,10 @@
 
 #include "ccl/env/cclEnvironment.h"
 
+#ifdef CONCEPTCORE_VERIF
+#include "ccl/verifHooks.hpp"
+#endif
+
 namespace ccl::tools {
 
 void EntityGenerator::Clear() noexcept {
@@ -13,6 +17,11 @@ EntityUID EntityGenerator::NewUID() {
   const auto oldSize = ssize(entities);
   while (ssize(entities) == oldSize) {
     result = static_cast<EntityUID>(distribution(Environment::RNG()));
+#ifdef CONCEPTCORE_VERIF
+    if (ccl::verif::GetHooks().nextUID) {
+      result = static_cast<EntityUID>(ccl::verif::GetHooks().nextUID());
+    }
+#endif
     entities.emplace(result);
   }
   return result;
